@@ -395,6 +395,14 @@ func (c08Stream) Impl(c Case) string {
 					// only a plain connection can ask for StartTLS; elsewhere this ending is a plain client close
 					if mode == "plain" {
 						_ = x.c.send(opFrame("starttls", 95))
+						// wait for the StartTLS reply (bytes sent earlier would sit in the server's LDAP read buffer
+						// instead of reaching the handshake), then send something that is no ClientHello
+						for i := 0; i < 4; i++ {
+							f, err := x.c.readFrame(2 * time.Second)
+							if err != nil || strings.HasPrefix(strictView(f), "result id=95 ") {
+								break
+							}
+						}
 						_ = x.c.send([]byte("this is not a TLS ClientHello\r\n"))
 					}
 				}
